@@ -132,6 +132,15 @@ def run(tier, seed):
                 if len(viol) < 5:
                     viol.append({"key": "C10:%s:%d:random-history" % (kind, n), "what": "%s(%d) after accesses %s: victim %s, repr %s; prescribed victim %s, repr %s" % (kind.upper(), n, hist, pol.get_next_to_replace(), list(pol.get_repr()), want_v, want_r), "policy": kind, "n": n, "history": list(hist)})
                 break
+    # the policies as the caches use them: interface-level histories on the real cache systems against a reference LRU /
+    # tree-PLRU cache (bounded/cacheops.py); a hit/miss that disagrees is a wrong victim or a missed recency update
+    from bounded import cacheops
+    oe, ok_, ov = cacheops.run(tier, seed, "C10")
+    total += oe
+    for v in ov:
+        v["sub"] = "cacheops"
+        v["what"] = "replacement decisions of a cache differ from the reference policy: " + v["what"]
+    viol = viol + ov
     return {"evaluations": total, "distinct_nontrivial": sum(per.values()), "violations": viol[:5], "reachable_states": per,
             "samples": [{"history": [0, 1, 0], "policy": "LRU(2)"}],
             "rule": "breadth-first exploration of every reachable (real object, reference policy state) pair, all accesses from each, for LRU n in %s and PLRU n in %s (cap %d states each); plus random histories of 200 accesses (with immediate and ping-pong repeats) for associativities up to 16 (LRU) / 32 (PLRU); non-trivial = distinct reachable states" % (sizes["lru"], sizes["plru"], cap),
@@ -140,6 +149,9 @@ def run(tier, seed):
 
 
 def replay(j):
+    if j.get("sub") == "cacheops":
+        from bounded import cacheops
+        return cacheops.replay(j)
     from architecture_simulator.uarch.memory.replacement_strategies import LRU, PLRU
     n, kind = j["n"], j["policy"]
     pol = LRU(n) if kind == "lru" else PLRU(n)
